@@ -5,39 +5,46 @@ import LaunchpadModel.Lemmas.WlInv
 namespace LP.WlMembers
 open LP
 
-/-- frame facts of one successful message: the kind never changes, the limit never decreases, `stray` grows by the tip -/
+/-- frame facts of one successful message: the kind never changes, the limit never decreases, the `stray` ghosts grow by the tip -/
 theorem exec_frame {s s' : WL} {op : Op} (h : exec s op = .ok s') :
-    s'.kind = s.kind ∧ s.memberLimit ≤ s'.memberLimit ∧ s'.stray = s.stray + op.tip := by
+    s'.kind = s.kind ∧ s.memberLimit ≤ s'.memberLimit ∧ s'.stray = s.stray + op.tip.native ∧
+    s'.strayOther = s.strayOther + op.tip.other := by
   unfold exec at h
   split at h
   · exact absurd h (by simp)
   cases op <;> dsimp only at h
-  case addMembers sender now tip stage ms =>
+  case addMembers al hf tip stage ms =>
     unfold execAddMembers at h
     repeat' (first | (split at h) | (dsimp only at h; split at h))
     all_goals (cases h; try (simp [tipped, Op.tip]))
-  case removeMembers sender now tip stage as =>
+  case removeMembers al tip stage as =>
     unfold execRemoveMembers at h
     repeat' (first | (split at h) | (dsimp only at h; split at h))
     all_goals (cases h; try (simp [tipped, Op.tip]))
-  case addStage sender now tip start stop ms =>
+  case addStage al hf tip ms =>
     unfold execAddStage at h
     repeat' (first | (split at h) | (dsimp only at h; split at h))
     all_goals (cases h; try (simp [tipped, Op.tip]))
-  case removeStage sender now tip stage =>
+  case removeStage al tip stage =>
     unfold execRemoveStage at h
     repeat' (first | (split at h) | (dsimp only at h; split at h))
     all_goals (cases h; try (simp [tipped, Op.tip]))
-  case increaseLimit sender now funds limit =>
+  case increaseLimit al funds limit =>
     unfold execIncreaseLimit at h
+    split at h
+    · exact absurd h (by simp)
+    split at h
+    · exact absurd h (by simp)
     split at h
     · exact absurd h (by simp)
     rename_i hg
     simp only [Bool.or_eq_true, decide_eq_true_eq, not_or, Nat.not_le, Nat.not_lt] at hg
     repeat' (first | (split at h) | (dsimp only at h; split at h))
-    all_goals (cases h; try (simp [Op.tip]; omega))
-  case env admins start stop times =>
-    simp only [Except.ok.injEq] at h; subst h; simp [Op.tip]
+    all_goals (cases h; try (simp [Op.tip, Tip.zero]; omega))
+  case other al tip =>
+    split at h
+    · simp only [Except.ok.injEq] at h; subst h; simp [tipped, Op.tip]
+    · exact absurd h (by simp)
 
 theorem mapOf_flat {s : WL} (h : s.kind.isTiered = false) (stage : Nat) : mapOf s stage = s.members := by
   simp [mapOf, h]
@@ -56,9 +63,9 @@ theorem sorted_mapOf {s : WL} (hi : WlInv s) (stage : Nat) : SortedKeys (mapOf s
   · exact hi.flat_sorted
 
 /-- Effect of a successful `AddMembers` on the targeted map (flat kinds: `WHITELIST`; tiered: the stage's slice). -/
-theorem add_effect {s s' : WL} {sender now tip stage : Nat} {ms : List Member} (hi : WlInv s)
-    (h : exec s (.addMembers sender now tip stage ms) = .ok s') :
-    isAdmin s sender = true ∧
+theorem add_effect {s s' : WL} {al hf : Bool} {tip : Tip} {stage : Nat} {ms : List Member} (hi : WlInv s)
+    (h : exec s (.addMembers al hf tip stage ms) = .ok s') :
+    al = true ∧
     (∀ a, a ∈ keys (mapOf s' stage) ↔ a ∈ keys (mapOf s stage) ∨ a ∈ keys ms) ∧
     s'.numMembers + (mapOf s stage).length = s.numMembers + (mapOf s' stage).length ∧
     (∀ a ∈ keys (mapOf s stage), getM a (mapOf s' stage) = getM a (mapOf s stage)) ∧
@@ -71,7 +78,7 @@ theorem add_effect {s s' : WL} {sender now tip stage : Nat} {ms : List Member} (
   split at h
   · exact absurd h (by simp)
   rename_i hadm
-  have hadm' : isAdmin s sender = true := by simpa using hadm
+  have hadm' : al = true := by simpa using hadm
   dsimp only at h
   split at h
   · -- tiered
@@ -116,9 +123,9 @@ theorem add_effect {s s' : WL} {sender now tip stage : Nat} {ms : List Member} (
       rw [hp] at f; exact f
 
 /-- Effect of a successful `RemoveMembers` on the targeted map. -/
-theorem remove_effect {s s' : WL} {sender now tip stage : Nat} {as : List Nat} (hi : WlInv s)
-    (h : exec s (.removeMembers sender now tip stage as) = .ok s') :
-    isAdmin s sender = true ∧
+theorem remove_effect {s s' : WL} {al : Bool} {tip : Tip} {stage : Nat} {as : List Nat} (hi : WlInv s)
+    (h : exec s (.removeMembers al tip stage as) = .ok s') :
+    al = true ∧
     (∀ a ∈ as, a ∈ keys (mapOf s stage)) ∧ as.Nodup ∧
     (∀ x, x ∈ keys (mapOf s' stage) ↔ x ∈ keys (mapOf s stage) ∧ x ∉ as) ∧
     s'.numMembers + as.length = s.numMembers := by
@@ -130,15 +137,13 @@ theorem remove_effect {s s' : WL} {sender now tip stage : Nat} {as : List Nat} (
   split at h
   · exact absurd h (by simp)
   rename_i hadm
-  have hadm' : isAdmin s sender = true := by simpa using hadm
+  have hadm' : al = true := by simpa using hadm
   split at h
   · -- tiered
     rename_i ht
     split at h
     · exact absurd h (by simp)
     rename_i g hg
-    split at h
-    · exact absurd h (by simp)
     split at h
     · exact absurd h (by simp)
     rename_i num st removed hloop
@@ -160,8 +165,6 @@ theorem remove_effect {s s' : WL} {sender now tip stage : Nat} {as : List Nat} (
     have ht' : s.kind.isTiered = false := by simpa using ht
     split at h
     · exact absurd h (by simp)
-    split at h
-    · exact absurd h (by simp)
     rename_i num st removed hloop
     cases h
     have q := removeLoop_spec _ _ _ _ _ _ _ hi.flat_sorted hloop
@@ -174,16 +177,21 @@ theorem remove_effect {s s' : WL} {sender now tip stage : Nat} {as : List Nat} (
     simp only [tipped]; omega
 
 /-- what a successful `IncreaseMemberLimit` charged -/
-theorem incr_effect {s s' : WL} {sender now : Nat} {funds : List Coin} {limit : Nat}
-    (h : exec s (.increaseLimit sender now funds limit) = .ok s') :
+theorem incr_effect {s s' : WL} {al : Bool} {funds : List Coin} {limit : Nat}
+    (h : exec s (.increaseLimit al funds limit) = .ok s') :
     s.memberLimit < limit ∧ limit ≤ s.kind.maxMembers ∧ s'.memberLimit = limit ∧
     mayPay funds NATIVE = .ok (upgradeFee s.kind s.memberLimit limit) ∧
-    s'.feesPaid = s.feesPaid + upgradeFee s.kind s.memberLimit limit := by
+    s'.feesPaid = s.feesPaid + upgradeFee s.kind s.memberLimit limit ∧
+    s'.members = s.members ∧ s'.stages = s.stages ∧ s'.numMembers = s.numMembers := by
   unfold exec at h
   split at h
   · exact absurd h (by simp)
   dsimp only at h
   unfold execIncreaseLimit at h
+  split at h
+  · exact absurd h (by simp)
+  split at h
+  · exact absurd h (by simp)
   split at h
   · exact absurd h (by simp)
   rename_i hg
@@ -201,12 +209,13 @@ theorem incr_effect {s s' : WL} {sender now : Nat} {funds : List Coin} {limit : 
   split at h
   · exact absurd h (by simp)
   cases h
-  exact ⟨hg.1, hg.2, rfl, hfee ▸ hpay, by simp only []; rw [hfee]⟩
+  exact ⟨hg.1, hg.2, rfl, hfee ▸ hpay, by simp only []; rw [hfee], rfl, rfl, rfl⟩
 
 /-- what a successful instantiate of a fee-charging kind was paid -/
 theorem inst_effect {k : Kind} {m : InstMsg} {s : WL} (hk : k ≠ .immutable) (h : instantiate k m = .ok s) :
     s.kind = k ∧ s.memberLimit = m.memberLimit ∧ m.memberLimit ≠ 0 ∧
-    mustPay m.funds NATIVE = .ok (creationFee k m.memberLimit) ∧ s.feesPaid = creationFee k m.memberLimit ∧ s.stray = 0 := by
+    mustPay m.funds NATIVE = .ok (creationFee k m.memberLimit) ∧ s.feesPaid = creationFee k m.memberLimit ∧ s.stray = 0 ∧
+    s.strayOther = 0 := by
   unfold instantiate at h
   split at h
   · exact absurd rfl hk
@@ -227,10 +236,10 @@ theorem inst_effect {k : Kind} {m : InstMsg} {s : WL} (hk : k ≠ .immutable) (h
   simp only [ne_eq, Decidable.not_not] at hfee
   have hne : m.memberLimit ≠ 0 := by omega
   repeat' (first | (split at h) | (dsimp only at h; split at h))
-  all_goals (cases h; try (exact ⟨rfl, rfl, hne, hfee ▸ hpay, hfee, rfl⟩))
+  all_goals (cases h; try (exact ⟨rfl, rfl, hne, hfee ▸ hpay, hfee, rfl, rfl⟩))
 
 theorem inst_immutable {m : InstMsg} {s : WL} (h : instantiate .immutable m = .ok s) :
-    s.kind = .immutable ∧ m.funds = [] ∧ s.feesPaid = 0 ∧ s.stray = 0 ∧ s.members ≠ [] := by
+    s.kind = .immutable ∧ m.funds = [] ∧ s.feesPaid = 0 ∧ s.stray = 0 ∧ s.members ≠ [] ∧ s.strayOther = 0 := by
   unfold instantiate at h
   dsimp only at h
   split at h
@@ -240,7 +249,7 @@ theorem inst_immutable {m : InstMsg} {s : WL} (h : instantiate .immutable m = .o
   · exact absurd h (by simp)
   rename_i hl
   cases h
-  refine ⟨rfl, by simpa using hf, rfl, rfl, ?_⟩
+  refine ⟨rfl, by simpa using hf, rfl, rfl, ?_, rfl⟩
   intro he
   have hs := sorted_zero_map (keys m.members)
   have := foldl_saveM_fresh_length hs
@@ -248,6 +257,189 @@ theorem inst_immutable {m : InstMsg} {s : WL} (h : instantiate .immutable m = .o
   rw [he] at this
   simp only [List.length_nil] at this
   omega
+
+
+/-! ## Stage messages, frame facts -/
+
+/-- in a map with distinct keys `may_load` returns exactly the stored value -/
+theorem getM_eq_some_iff {l : List Member} (hs : SortedKeys l) (a c : Nat) : getM a l = some c ↔ (a, c) ∈ l := by
+  induction l with
+  | nil => simp [getM]
+  | cons x xs ih =>
+    have hx := sortedKeys_cons.mp hs
+    unfold getM
+    by_cases h : x.1 = a
+    · rw [if_pos h]
+      constructor
+      · intro e
+        simp only [Option.some.injEq] at e
+        have : x = (a, c) := by rw [← h, ← e]
+        rw [this]; exact List.mem_cons_self
+      · intro hm
+        rcases List.mem_cons.mp hm with e | e
+        · rw [← e]
+        · have : a ∈ keys xs := by
+            unfold keys; exact List.mem_map.mpr ⟨(a, c), e, rfl⟩
+          have := hx.1 a this
+          omega
+    · rw [if_neg h, ih hx.2]
+      constructor
+      · exact List.mem_cons_of_mem _
+      · intro hm
+        rcases List.mem_cons.mp hm with e | e
+        · rw [← e] at h; exact absurd rfl h
+        · exact e
+
+/-- Effect of a successful `AddStage`: one stage is appended; it stores exactly the listed addresses, its
+`MEMBER_COUNT` is the number of entries stored, and `num_members` grew by that number. -/
+theorem addStage_effect {s s' : WL} {al hf : Bool} {tip : Tip} {ms : List Member} (_hi : WlInv s)
+    (h : exec s (.addStage al hf tip ms) = .ok s') :
+    al = true ∧ s.kind.isTiered = true ∧ s'.members = s.members ∧
+    ∃ g, s'.stages = s.stages ++ [g] ∧ (∀ a, a ∈ keys g.members ↔ a ∈ keys ms) ∧ (keys g.members).Nodup ∧
+      g.count = g.members.length ∧ s'.numMembers = s.numMembers + g.members.length := by
+  unfold exec at h
+  split at h
+  · exact absurd h (by simp)
+  dsimp only at h
+  split at h
+  rotate_left
+  · exact absurd h (by simp)
+  rename_i ht
+  unfold execAddStage at h
+  split at h
+  · exact absurd h (by simp)
+  rename_i hal
+  have hal' : al = true := by simpa using hal
+  dsimp only at h
+  split at h
+  · exact absurd h (by simp)
+  rename_i num st added hloop
+  cases h
+  have r := addLoop_spec _ _ _ _ _ _ _ _ _ sortedKeys_nil hloop
+  refine ⟨hal', ht, rfl, ⟨st, _⟩, rfl, ?_, r.sorted.nodup, ?_, ?_⟩
+  · intro a; rw [r.mem a, mem_keys_prep]; simp [keys]
+  · simp only []
+    by_cases hf' : s.kind.isFlex = true
+    · rw [if_pos hf']; have := r.added; simp only [List.length_nil] at this; omega
+    · rw [if_neg hf']
+      have hf'' : s.kind.isFlex = false := by simpa using hf'
+      exact (addLoop_fresh_length hloop (sorted_prep hf'' ms)).symm
+  · have := r.count; simp only [List.length_nil] at this; simp only [tipped]; omega
+
+/-- Effect of a successful `RemoveStage`: the stage and all later ones are gone, and `num_members` dropped by exactly
+the number of entries that were stored under them. -/
+theorem removeStage_effect {s s' : WL} {al : Bool} {tip : Tip} {stage : Nat}
+    (h : exec s (.removeStage al tip stage) = .ok s') :
+    al = true ∧ stage < s.stages.length ∧ s'.members = s.members ∧ s'.stages = s.stages.take stage ∧
+    s'.numMembers + stageTotal (s.stages.drop stage) = s.numMembers := by
+  unfold exec at h
+  split at h
+  · exact absurd h (by simp)
+  dsimp only at h
+  split at h
+  rotate_left
+  · exact absurd h (by simp)
+  unfold execRemoveStage at h
+  split at h
+  · exact absurd h (by simp)
+  rename_i hal
+  have hal' : al = true := by simpa using hal
+  split at h
+  · exact absurd h (by simp)
+  rename_i g hg
+  dsimp only at h
+  split at h
+  · exact absurd h (by simp)
+  rename_i hd
+  cases h
+  have hlt : stage < s.stages.length := by
+    rcases Nat.lt_or_ge stage s.stages.length with h1 | h1
+    · exact h1
+    · rw [List.getElem?_eq_none h1] at hg; exact absurd hg (by simp)
+  refine ⟨hal', hlt, rfl, rfl, ?_⟩
+  simp only [tipped]; omega
+
+/-- messages other than `IncreaseMemberLimit` change neither the limit nor anything about fees -/
+theorem exec_frame_fees {s s' : WL} {op : Op} (h : exec s op = .ok s') (hop : ∀ al f l, op ≠ .increaseLimit al f l) :
+    s'.memberLimit = s.memberLimit ∧ s'.feesPaid = s.feesPaid ∧ s'.bank.burned = s.bank.burned ∧ s'.bank.pool = s.bank.pool := by
+  unfold exec at h
+  split at h
+  · exact absurd h (by simp)
+  cases op <;> dsimp only at h
+  case addMembers al hf tip stage ms =>
+    unfold execAddMembers at h
+    repeat' (first | (split at h) | (dsimp only at h; split at h))
+    all_goals (cases h; try (simp [tipped]))
+  case removeMembers al tip stage as =>
+    unfold execRemoveMembers at h
+    repeat' (first | (split at h) | (dsimp only at h; split at h))
+    all_goals (cases h; try (simp [tipped]))
+  case addStage al hf tip ms =>
+    unfold execAddStage at h
+    repeat' (first | (split at h) | (dsimp only at h; split at h))
+    all_goals (cases h; try (simp [tipped]))
+  case removeStage al tip stage =>
+    unfold execRemoveStage at h
+    repeat' (first | (split at h) | (dsimp only at h; split at h))
+    all_goals (cases h; try (simp [tipped]))
+  case increaseLimit al funds limit => exact absurd rfl (hop al funds limit)
+  case other al tip =>
+    split at h
+    · simp only [Except.ok.injEq] at h; subst h; simp [tipped]
+    · exact absurd h (by simp)
+
+/-- `IncreaseMemberLimit` and the other messages store and remove nothing -/
+theorem other_effect {s s' : WL} {al : Bool} {tip : Tip} (h : exec s (.other al tip) = .ok s') :
+    s'.members = s.members ∧ s'.stages = s.stages ∧ s'.numMembers = s.numMembers := by
+  unfold exec at h
+  split at h
+  · exact absurd h (by simp)
+  dsimp only at h
+  split at h
+  · simp only [Except.ok.injEq] at h; subst h; simp [tipped]
+  · exact absurd h (by simp)
+
+/-- tiered kinds: `AddMembers` / `RemoveMembers` on one stage leave every other stage's map alone -/
+theorem add_other_stages {s s' : WL} {al hf : Bool} {tip : Tip} {stage : Nat} {ms : List Member}
+    (h : exec s (.addMembers al hf tip stage ms) = .ok s') (ht : s.kind.isTiered = true) :
+    s'.stages.length = s.stages.length ∧ ∀ j, j ≠ stage → mapOf s' j = mapOf s j := by
+  unfold exec at h
+  split at h
+  · exact absurd h (by simp)
+  dsimp only at h
+  unfold execAddMembers at h
+  split at h
+  · exact absurd h (by simp)
+  dsimp only at h
+  split at h
+  · exact absurd h (by simp)
+  split at h
+  · exact absurd h (by simp)
+  cases h
+  refine ⟨by simp [tipped], ?_⟩
+  intro j hj
+  have hne : stage ≠ j := fun e => hj e.symm
+  simp [mapOf, tipped, ht, List.getElem?_set_ne hne]
+
+theorem remove_other_stages {s s' : WL} {al : Bool} {tip : Tip} {stage : Nat} {as : List Nat}
+    (h : exec s (.removeMembers al tip stage as) = .ok s') (ht : s.kind.isTiered = true) :
+    s'.stages.length = s.stages.length ∧ ∀ j, j ≠ stage → mapOf s' j = mapOf s j := by
+  unfold exec at h
+  split at h
+  · exact absurd h (by simp)
+  dsimp only at h
+  unfold execRemoveMembers at h
+  split at h
+  · exact absurd h (by simp)
+  split at h
+  · exact absurd h (by simp)
+  split at h
+  · exact absurd h (by simp)
+  cases h
+  refine ⟨by simp [tipped], ?_⟩
+  intro j hj
+  have hne : stage ≠ j := fun e => hj e.symm
+  simp [mapOf, tipped, ht, List.getElem?_set_ne hne]
 
 /-! ## Paging the `Members` query -/
 
@@ -308,8 +500,8 @@ theorem walkPages_complete (s : WL) (stage pg : Nat) (hpg : 1 ≤ pg) (hs : Sort
     (hv : ∀ x ∈ keys (mapOf s stage), validAddr x = true) :
     ∀ (fuel : Nat) (p q : List Member), mapOf s stage = p ++ q → q.length < fuel →
       walkPages s stage pg fuel (p.getLast?.map (·.1)) p = mapOf s stage := by
-  have hlim : 1 ≤ min pg PAGE_MAX := by
-    have : 1 ≤ PAGE_MAX := by decide
+  have hlim : 1 ≤ min pg s.kind.pageMax := by
+    have : 1 ≤ s.kind.pageMax := by cases s.kind <;> decide
     omega
   intro fuel
   induction fuel with
@@ -317,7 +509,7 @@ theorem walkPages_complete (s : WL) (stage pg : Nat) (hpg : 1 ≤ pg) (hs : Sort
   | succ fuel ih =>
     intro p q hpq hq
     -- the page returned for the cursor = last key of `p`
-    have hpage : queryMembers s stage (p.getLast?.map (·.1)) (some pg) = some (q.take (min pg PAGE_MAX)) := by
+    have hpage : queryMembers s stage (p.getLast?.map (·.1)) (some pg) = some (q.take (min pg s.kind.pageMax)) := by
       unfold queryMembers
       simp only [Option.getD_some]
       rcases List.eq_nil_or_concat p with hp | ⟨p', x, hp⟩
@@ -329,27 +521,27 @@ theorem walkPages_complete (s : WL) (stage pg : Nat) (hpg : 1 ≤ pg) (hs : Sort
         rw [hv x.1 hx]; simp only [if_true]
         rw [hpq, filter_after_last (by rw [← hpq]; exact hs)]
     rw [walkPages, hpage]
-    cases hq' : q.take (min pg PAGE_MAX) with
+    cases hq' : q.take (min pg s.kind.pageMax) with
     | nil =>
       have : q = [] := by
         cases q with
         | nil => rfl
         | cons y ys =>
-          have : (min pg PAGE_MAX) = (min pg PAGE_MAX - 1) + 1 := by omega
+          have : (min pg s.kind.pageMax) = (min pg s.kind.pageMax - 1) + 1 := by omega
           rw [this, List.take_succ_cons] at hq'; exact absurd hq' (by simp)
       subst this
       simp only [List.append_nil] at hpq
       exact hpq.symm
     | cons y ys =>
       simp only []
-      have hne : q.take (min pg PAGE_MAX) ≠ [] := by rw [hq']; simp
+      have hne : q.take (min pg s.kind.pageMax) ≠ [] := by rw [hq']; simp
       have hlast : (p ++ (y :: ys)).getLast?.map (·.1) = (y :: ys).getLast?.map (·.1) := by
         rw [List.getLast?_append]
         cases hz : (y :: ys).getLast? with
         | none => exact absurd (List.getLast?_eq_none_iff.mp hz) (by simp)
         | some z => rfl
       rw [← hlast]
-      apply ih (p ++ (y :: ys)) (q.drop (min pg PAGE_MAX))
+      apply ih (p ++ (y :: ys)) (q.drop (min pg s.kind.pageMax))
       · rw [List.append_assoc, ← hq', List.take_append_drop]; exact hpq
       · have hqne : q ≠ [] := by intro e; rw [e] at hq'; simp at hq'
         have : 0 < q.length := List.length_pos_iff.mpr hqne
